@@ -199,6 +199,9 @@ func mapField(
 			TargetID:   targetField.Name(),
 			TargetType: targetField.Type().String(),
 		})
+		if sourceID.Whole != nil {
+			return &xtype.JenID{Code: sourceID.Whole, ParentPointer: sourceID.ParentPointer}, source, nil, lift, false, nil
+		}
 		return sourceID, source, nil, lift, false, nil
 	}
 
